@@ -22,6 +22,14 @@ var c11Errors = []string{
 	"-OOM command not allowed when used memory > 'maxmemory'.\r\n",
 	"-MASTERDOWN Link with MASTER is down and replica-serve-stale-data is set to 'no'.\r\n",
 	"-BUSY Redis is busy running a script.\r\n",
+	"-ERR invalid expire time in 'setex' command\r\n",
+	"-ERR invalid cursor\r\n",
+	"-NOSCRIPT No matching script. Please use EVAL.\r\n",
+	"-ERR Client sent something that looks like AUTH\r\n",
+	"-NOPERM this user has no permissions to run the 'get' command\r\n",
+	"-MISCONF Redis is configured to save RDB snapshots\r\n",
+	"-ERR\r\n",
+	"-E\r\n",
 }
 
 func c11Scenario(kind string, nfrag int, errNodes []string, errIdx int, bound int) *world.Scenario {
@@ -113,7 +121,7 @@ func c11Scenarios(tier string) []*world.Scenario {
 	for ei := range c11Errors {
 		out = append(out, c11Scenario("get", 1, []string{AddrA}, ei, -1))
 	}
-	errs := []int{0, 1, 2, 3}
+	errs := []int{0, 1, 2, 3, 10, 16}
 	if tier == "thorough" {
 		errs = nil
 		for i := range c11Errors {
@@ -214,6 +222,47 @@ var c13Cases = []redirCase{
 				return movedTo(slot, AddrB), 0
 			case AddrB:
 				return movedTo(slot, AddrA), 0
+			}
+			return nil, 0
+		}
+	}},
+	{name: "ask-mutual-A-B", final: "", reply: func(key string) world.ReplyFn {
+		slot := world.SpecSlot([]byte(key))
+		return func(w *world.World, bc *world.BConn, args [][]byte) ([]byte, int) {
+			if !hasKey(args, key) {
+				return nil, 0
+			}
+			switch bc.Addr {
+			case AddrA:
+				return askTo(slot, AddrB), 0
+			case AddrB:
+				return askTo(slot, AddrA), 0
+			}
+			return nil, 0
+		}
+	}},
+	{name: "ask-to-self", final: "", reply: func(key string) world.ReplyFn {
+		slot := world.SpecSlot([]byte(key))
+		return func(w *world.World, bc *world.BConn, args [][]byte) ([]byte, int) {
+			if hasKey(args, key) && bc.Addr == AddrA {
+				return askTo(slot, AddrA), 0
+			}
+			return nil, 0
+		}
+	}},
+	{name: "moved-then-ask-loop", final: "", reply: func(key string) world.ReplyFn {
+		slot := world.SpecSlot([]byte(key))
+		return func(w *world.World, bc *world.BConn, args [][]byte) ([]byte, int) {
+			if !hasKey(args, key) {
+				return nil, 0
+			}
+			switch bc.Addr {
+			case AddrA:
+				return movedTo(slot, AddrB), 0
+			case AddrB:
+				return askTo(slot, AddrC), 0
+			case AddrC:
+				return askTo(slot, AddrB), 0
 			}
 			return nil, 0
 		}
@@ -319,7 +368,7 @@ func init() {
 		Scenarios: c11Scenarios, BudgetQuick: 90, BudgetThorough: 1200,
 		Assumptions: []string{"error texts are representative Redis error lines; the property quantifies over the error class, which the proxy treats uniformly (first byte '-')"}})
 	register(&Check{ID: "C13", Level: "model_checking",
-		Rule:      "cluster-model redirect situations {slot moved A->B; slot migrating A->B (ASK, target serves only after ASKING); MOVED chain A->B->C; two nodes redirecting to each other; redirect to self} x {single-key GET, fragment of MGET, fragment of DEL} x every position of a 3-request pipeline next to non-redirected requests x every interleaving within the bound; oracle: final node's reply once and in order, ASKING immediately before the re-sent command, bounded number of re-sends; non-trivial = >= 1 deviation; distinct = observable outcomes",
+		Rule:      "cluster-model redirect situations {slot moved A->B; slot migrating A->B (ASK, target serves only after ASKING); MOVED chain A->B->C; two nodes redirecting to each other with MOVED and with ASK; MOVED followed by an ASK cycle; MOVED / ASK to self} x {single-key GET, fragment of MGET, fragment of DEL} x every position of a 3-request pipeline next to non-redirected requests x every interleaving within the bound; oracle: final node's reply once and in order, ASKING immediately before the re-sent command, bounded number of re-sends; non-trivial = >= 1 deviation; distinct = observable outcomes",
 		Scenarios: c13Scenarios, BudgetQuick: 90, BudgetThorough: 1200,
 		Assumptions: []string{"node model implements MOVED/ASK/ASKING as the Redis Cluster specification describes"}})
 }
